@@ -3,7 +3,7 @@
 // construction, on every schedule:
 //   blocking == always_inline  =>  the receiver is completed inside start(), on the starting thread
 //   blocking == always         =>  the receiver is completed before start() returns
-//   blocking == never          =>  the receiver is NOT completed on the starting thread before start() returns
+//   (blocking == never is only counted: the property as given does not constrain it)
 //   sends_done == false        =>  the receiver never gets set_done, whatever the stop timing
 // One (expression, leaf flavours) case per run; leaf outcomes, inline/deferred choice of `maybe`
 // leaves and the stop request (before start / racing / none) are drawn. C++17-compatible.
@@ -65,6 +65,8 @@ World* g_w = nullptr;
 // leaf flavours: K 0 = always_inline, 2 = maybe, 3 = never; SD = may complete with done
 template <int K, bool SD, int Idx>
 struct leaf : gate_sender {
+  template <template <class...> class Variant, template <class...> class Tuple>
+  using value_types = Variant<Tuple<long>>;
   static constexpr bool sends_done = SD;
   static constexpr unifex::blocking_kind blocking =
       K == 0 ? unifex::blocking_kind(unifex::blocking_kind::always_inline) : K == 3 ? unifex::blocking_kind(unifex::blocking_kind::never)
@@ -96,8 +98,8 @@ const char* bk_name(unifex::blocking_kind b) {
   }
 }
 
-// Dyn=false: the blocking() CPO is not asked. (finally_sender's customisation of it does not compile - inside the class the
-// unqualified name `blocking` finds the static data member - and via/typed_via are built on finally; noted in DESIGN.md.)
+// Dyn=false: the blocking() CPO is not asked. (the customisations of it in finally, let_value, let_error and sequence do not compile when
+// instantiated - inside those classes the unqualified name `blocking` finds the static data member - and via/on are built on them; DESIGN.md 0.3.)
 template <bool Dyn = true, class Sender>
 void drive(World* w, Sender snd) {
   using S = unifex::inline_scheduler;
@@ -144,8 +146,9 @@ void drive(World* w, Sender snd) {
       KIT_CHECK(r.in_start, "c11.blocking", "%s claims blocking=always but completed after start() returned", w->case_name);
       usim_probe("always claim checked");
     } else if (bk.value == unifex::blocking_kind::never) {
-      KIT_CHECK(!inline_here, "c11.blocking", "%s claims blocking=never but completed inside start() on the starting thread", w->case_name);
-      usim_probe("never claim checked");
+      // (C11 as given constrains always_inline, always and sends_done=false only: a broken `never` is counted, not reported.
+      //  when_all(never, always_inline) does complete inline when the never-child finishes on another thread first.)
+      if (inline_here) usim_probe("NOTE never claim broken (outside C11)"); else usim_probe("never claim held");
     }
     if (!sd) {
       KIT_CHECK(r.channel != CH_DONE, "c11.sends-done", "%s claims sends_done=false but completed with done (stop_mode %d)", w->case_name, w->stop_mode);
@@ -172,14 +175,14 @@ template <class L> void e_lvw(World* w) { drive(w, unifex::let_value_with([]() n
 template <class L> void e_into_variant(World* w) { drive(w, unifex::into_variant(L{})); }
 template <class L> void e_dao(World* w) { drive(w, unifex::done_as_optional(L{})); }
 template <class L> void e_allocate(World* w) { drive(w, unifex::allocate(L{})); }
-template <class L> void e_via_inline(World* w) { drive<false>(w, unifex::via(unifex::inline_scheduler{}, L{})); }
+template <class L> void e_via_inline(World* w) { drive(w, unifex::via(L{}, unifex::inline_scheduler{})); }
 template <class L> void e_on_inline(World* w) { drive(w, unifex::on(unifex::inline_scheduler{}, L{})); }
 
 template <class A, class B> void e_let_value(World* w) { drive(w, unifex::let_value(A{}, [](long&) noexcept { return second_t<B>{}; })); }
 template <class A, class B> void e_let_error(World* w) { drive(w, unifex::let_error(A{}, [](auto&&) noexcept { return second_t<B>{}; })); }
 template <class A, class B> void e_let_done(World* w) { drive(w, unifex::let_done(A{}, []() noexcept { return second_t<B>{}; })); }
 template <class A, class B> void e_sequence(World* w) { drive(w, unifex::sequence(void_of(A{}), second_t<B>{})); }
-template <class A, class B> void e_finally(World* w) { drive<false>(w, unifex::finally(A{}, void_of(second_t<B>{}))); }
+template <class A, class B> void e_finally(World* w) { drive(w, unifex::finally(A{}, void_of(second_t<B>{}))); }
 template <class A, class B> void e_when_all(World* w) { drive(w, unifex::when_all(A{}, second_t<B>{})); }
 template <class A, class B> void e_stop_when(World* w) { drive(w, unifex::stop_when(A{}, void_of(second_t<B>{}))); }
 
@@ -217,7 +220,7 @@ void e_sched_timed_after(World* w) {
 }
 void e_sched_trampoline(World* w) { drive(w, unifex::then(unifex::schedule(unifex::trampoline_scheduler{4}), []() noexcept { return 1L; })); }
 void e_sched_inline(World* w) { drive(w, unifex::then(unifex::schedule(unifex::inline_scheduler{}), []() noexcept { return 1L; })); }
-template <class L> void e_via_single(World* w) { with_single(w, [w](auto s) { drive<false>(w, unifex::via(s, L{})); }); }
+template <class L> void e_via_single(World* w) { with_single(w, [w](auto s) { drive(w, unifex::via(L{}, s)); }); }
 template <class L> void e_on_single(World* w) { with_single(w, [w](auto s) { drive(w, unifex::on(s, L{})); }); }
 
 struct Case { const char* name; void (*run)(World*); };
